@@ -410,7 +410,7 @@ func c01Specs(thorough bool) []mb.Msg {
 			)
 		}
 	}
-	for _, src := range []string{"reader", "readseeker", "buffer"} {
+	for _, src := range []string{"reader", "readseeker", "buffer", "reader@", "readseeker@"} {
 		for _, fe := range []string{"", "8bit"} { // (QP for files exists only as a field of hand-made File structs)
 			for ne := 0; ne <= 2; ne++ {
 				for na := 0; na <= 2; na++ {
@@ -463,7 +463,7 @@ func init() {
 	vf.Register(&vf.Check{
 		ID: "C01", Title: "rendered MIME carries exactly the content the caller supplied",
 		Run: func(r *vf.Run) {
-			r.SetRule("builder programs in canonical order: 0..3 body parts × 0..2 embeds × 0..2 attachments × message encoding {QP, base64, 8bit} × file encoding {default base64, 8bit, QP via File.Enc} × per-part encodings/descriptions/content types/fixed boundary, contents rotated through a 25-entry text alphabet and an 18-entry binary alphabet (wrap points 57/58/75/76/77, dots, '=', boundary-like lines, bare CR/LF, all 256 byte values, 3000-byte binary); plus every single byte value in every encoding; plus files supplied through AttachReader/EmbedReader (memory recycled by the caller afterwards; one scratch buffer refilled per file) and Attach/EmbedReadSeeker; bodies and files produced from text/html templates; part contents replaced through Part.SetContent; messages rendered while still incomplete and completed afterwards; each program is rendered through WriteTo, WriteToFile onto an existing longer file, NewReader, Write, WriteToTempFile, a second WriteTo of the same Msg, a WriteTo that follows one into a sink failing at 1/8..7/8 of the rendering, and WriteToSendmailWithContext into a program that stores its input; each rendering is re-read by the harness' own MIME reader and compared leaf by leaf; distinct by program")
+			r.SetRule("builder programs in canonical order: 0..3 body parts × 0..2 embeds × 0..2 attachments × message encoding {QP, base64, 8bit} × file encoding {default base64, 8bit, QP via File.Enc} × per-part encodings/descriptions/content types/fixed boundary, contents rotated through a 25-entry text alphabet and an 18-entry binary alphabet (wrap points 57/58/75/76/77, dots, '=', boundary-like lines, bare CR/LF, all 256 byte values, 3000-byte binary); plus every single byte value in every encoding; plus files supplied through AttachReader/EmbedReader (memory recycled by the caller afterwards; one scratch buffer refilled per file) and Attach/EmbedReadSeeker, both also on a source that stands behind a header the caller has consumed already; bodies and files produced from text/html templates; part contents replaced through Part.SetContent; messages rendered while still incomplete and completed afterwards; each program is rendered through WriteTo, WriteToFile onto an existing longer file, NewReader, Write, WriteToTempFile, a second WriteTo of the same Msg, a WriteTo that follows one into a sink failing at 1/8..7/8 of the rendering, and WriteToSendmailWithContext into a program that stores its input; each rendering is re-read by the harness' own MIME reader and compared leaf by leaf; distinct by program")
 			r.Assume("file media types without WithFileContentType are those of mime.TypeByExtension", "charset of text parts is the default UTF-8", "NUL bytes are not text")
 			specs := c01Specs(r.Thorough)
 			r.Extra("programs", len(specs))
@@ -530,7 +530,7 @@ func init() {
 			for _, n := range c01Paths {
 				r.Reached("reached/faithful/via=" + n)
 			}
-			r.Reached("reached/faithful/file-source=reader", "reached/faithful/file-source=readseeker", "reached/faithful/file-source=buffer", "reached/faithful/file-source=ttpl", "reached/faithful/file-source=htpl",
+			r.Reached("reached/faithful/file-source=reader", "reached/faithful/file-source=readseeker", "reached/faithful/file-source=buffer", "reached/faithful/file-source=reader@", "reached/faithful/file-source=readseeker@", "reached/faithful/file-source=ttpl", "reached/faithful/file-source=htpl",
 				"reached/faithful/part-via=string", "reached/faithful/part-via=tpl", "reached/faithful/part-via=setcontent")
 		},
 		Replay: func(r *vf.Run, kase json.RawMessage) {
